@@ -737,3 +737,261 @@ Proof.
       rewrite pass2_move in Hc by assumption. cbn [map t_op] in Hc.
       rewrite count_op_cons in Hc. unfold is_op at 1 in Hc. cbn [d_op] in Hc. discriminate Hc.
 Qed.
+
+(* the reversed move: the instance goes back behind its original predecessor o, which lies further
+   down the list; when the moved instance was the first sibling the pointer is set to o *)
+Lemma apply_move_back y o m a t1 t2 :
+  NoDup (a ++ y :: t1 ++ o :: t2) ->
+  exists v',
+    apply_one (mkdop OpReplace y (Some (Some o)) m)
+      (a ++ y :: t1 ++ o :: t2, hd_error (a ++ y :: t1 ++ o :: t2))
+    = Ok (a ++ t1 ++ o :: y :: t2, Some v') /\ (v' = o \/ In v' a).
+Proof.
+  intro Hd. unfold apply_one. cbn [d_op d_x d_value]. unfold st_insert.
+  assert (Hy : mem y (a ++ y :: t1 ++ o :: t2) = true).
+  { apply mem_In. rewrite in_app_iff. right. left. reflexivity. }
+  assert (Ho : mem o (a ++ y :: t1 ++ o :: t2) = true).
+  { apply mem_In. rewrite in_app_iff. right. right. rewrite in_app_iff. right. left. reflexivity. }
+  apply NoDup_app_iff in Hd. destruct Hd as [Ha [Hb Hab]].
+  apply NoDup_cons_iff in Hb. destruct Hb as [Hyn Hb].
+  apply NoDup_app_iff in Hb. destruct Hb as [H1 [H2 H12]].
+  apply NoDup_cons_iff in H2. destruct H2 as [Hon H2].
+  assert (Hoy : o <> y).
+  { intros ->. apply Hyn. rewrite in_app_iff. right. left. reflexivity. }
+  assert (Hya : ~ In y a). { intro H. apply (Hab y H). left. reflexivity. }
+  assert (Hoa : ~ In o a).
+  { intro H. apply (Hab o H). right. rewrite in_app_iff. right. left. reflexivity. }
+  assert (Ho1 : ~ In o t1). { intro H. apply (H12 o H). left. reflexivity. }
+  rewrite Hy. cbn [negb].
+  destruct (hd_error (a ++ y :: t1 ++ o :: t2)) as [fv|] eqn:Eh; [|destruct a; discriminate Eh].
+  rewrite Ho. cbn [negb andb].
+  destruct (o =? y) eqn:E; [apply N.eqb_eq in E; congruence|].
+  rewrite remove1_app by exact Hya.
+  rewrite app_assoc, insert_after_app.
+  2:{ rewrite in_app_iff. intros [H|H]; [exact (Hoa H)|exact (Ho1 H)]. }
+  rewrite <- app_assoc.
+  destruct a as [|a0 a']; cbn [app hd_error] in Eh; injection Eh as <-.
+  - rewrite N.eqb_refl. exists o. split; [reflexivity|left; reflexivity].
+  - destruct (a0 =? y) eqn:E0.
+    + apply N.eqb_eq in E0. exfalso. apply Hya. left. exact E0.
+    + exists a0. split; [reflexivity|right; left; reflexivity].
+Qed.
+
+Lemma NoDup_filter_app (f : N -> bool) a b : NoDup (a ++ b) -> NoDup (filter f a ++ b).
+Proof.
+  rewrite !NoDup_app_iff. intros [Ha [Hb Hab]]. split; [apply NoDup_filter; exact Ha|].
+  split; [exact Hb|]. intros x Hx. apply filter_In in Hx. apply Hab. tauto.
+Qed.
+
+Lemma NoDup_move_back (a t1 t2 : list N) y o :
+  NoDup (a ++ y :: t1 ++ o :: t2) -> NoDup (a ++ t1 ++ o :: y :: t2).
+Proof.
+  rewrite !NoDup_app_iff, !NoDup_cons_iff, !NoDup_app_iff, !NoDup_cons_iff.
+  intros [Ha [[Hy [H1 [[Ho H2] H12]]] Hd]].
+  rewrite in_app_iff in Hy. cbn [In] in Hy.
+  split; [exact Ha|]. split.
+  - split; [exact H1|]. split.
+    + split; [cbn [In]; intros [H|H]; [subst; tauto|exact (Ho H)]|].
+      split; [tauto|exact H2].
+    + intros x Hx. specialize (H12 x Hx). cbn [In] in *. intros [H|[H|H]]; subst; tauto.
+  - intros x Hx. specialize (Hd x Hx). cbn [In] in *. rewrite !in_app_iff in *. cbn [In] in *. tauto.
+Qed.
+
+(* Phase 0: no move reversed so far. The state is (instances of the first list among done) ++ todo
+   with an accurate pointer; at the single move phase 1 takes over. *)
+Lemma rev_phase0 l1 : forall todo done rest,
+  inv2 l1 done todo rest ->
+  (count_op OpReplace (map t_op (diff_pass2 l1 todo (done ++ rest) (length done))) <= 1)%nat ->
+  filter (fun z => mem z l1) done ++ rest = l1 ->
+  exists f',
+    rev_app_st (map t_op (diff_pass2 l1 todo (done ++ rest) (length done)))
+      (filter (fun z => mem z l1) done ++ todo, hd_error (filter (fun z => mem z l1) done ++ todo))
+    = Ok (l1, f').
+Proof.
+  induction todo as [|y t IH]; intros done rest Hinv Hc Hl.
+  - apply inv2_nil in Hinv. subst rest. rewrite app_nil_r in Hl. rewrite !app_nil_r, Hl.
+    exists (hd_error l1). reflexivity.
+  - set (P := fun z => mem z l1) in *.
+    assert (H2 : NoDup (done ++ y :: t)) by apply Hinv.
+    assert (Hyt : ~ In y t).
+    { apply NoDup_app_iff in H2. destruct H2 as [_ [H2 _]]. apply NoDup_cons_iff in H2. tauto. }
+    destruct (inv2_step _ _ _ _ _ Hinv) as [Hyd [[Em Hn]|[[Em [rest' [-> Hn]]]|[Em [r1 [r2 [-> [Hne [Hy1 Hn]]]]]]]]].
+    + (* create -> delete, pointer accurate *)
+      rewrite pass2_create in * by exact Em. cbn [map t_op] in *.
+      rewrite count_op_cons in Hc. unfold is_op at 1 in Hc. cbn [d_op] in Hc. cbn [Nat.add] in Hc.
+      assert (Hyp : ~ In y (filter P done)). { intro H. apply filter_In in H. tauto. }
+      erewrite rev_app_st_cons.
+      2:{ unfold reverse_op. cbn [d_op d_x d_value d_orig]. reflexivity. }
+      2:{ apply apply_delete_hd. rewrite in_app_iff. right. left. reflexivity. }
+      rewrite remove1_app by exact Hyp.
+      specialize (IH (done ++ [y]) rest Hn Hc). fold P in IH.
+      rewrite filter_app in IH. cbn [filter] in IH. unfold P at 2 4 6 in IH. rewrite Em, app_nil_r in IH.
+      apply IH. exact Hl.
+    + (* unchanged instance *)
+      rewrite pass2_skip in * by exact Em.
+      specialize (IH (done ++ [y]) rest' Hn Hc). fold P in IH.
+      rewrite filter_app in IH. cbn [filter] in IH. unfold P at 2 4 6 in IH. rewrite Em in IH.
+      rewrite <- (app_assoc (filter P done) [y] t), <- (app_assoc (filter P done) [y] rest') in IH.
+      cbn [app] in IH. apply IH. exact Hl.
+    + (* the move *)
+      rewrite pass2_move in * by assumption. cbn [map t_op] in *.
+      rewrite count_op_cons in Hc. unfold is_op at 1 in Hc. cbn [d_op] in Hc.
+      assert (Hc0 : count_op OpReplace
+                      (map t_op (diff_pass2 l1 t ((done ++ [y]) ++ r1 ++ r2) (length (done ++ [y])))) = O) by lia.
+      destruct (last_opt r1) as [o|] eqn:Eo; [|apply last_opt_None in Eo; congruence].
+      destruct (last_opt_In _ _ Eo) as [r1' ->].
+      assert (Hrest : NoDup ((r1' ++ [o]) ++ y :: r2)).
+      { destruct Hinv as [Hi _]. apply NoDup_app_iff in Hi. tauto. }
+      assert (Hor : In o ((r1' ++ [o]) ++ y :: r2)).
+      { rewrite !in_app_iff. left. right. left. reflexivity. }
+      assert (Hoy : o <> y). { intros ->. apply Hy1. rewrite in_app_iff. right. left. reflexivity. }
+      assert (Ho1 : In o l1) by (apply Hinv; exact Hor).
+      assert (Hot : In o t).
+      { destruct Hinv as [_ [_ [_ H4]]]. destruct (H4 o Hor) as [[H|H] _]; [congruence|exact H]. }
+      destruct (In_split_first o t Hot) as [t1 [t2 [-> Hot1]]].
+      assert (HdR : NoDup (filter P done ++ y :: t1 ++ o :: t2)) by (apply NoDup_filter_app; exact H2).
+      destruct (apply_move_back y o (Some (last_opt done)) _ _ _ HdR) as [v' [Hap Hv']].
+      erewrite rev_app_st_cons.
+      2:{ unfold reverse_op. cbn [d_op d_x d_value d_orig]. reflexivity. }
+      2:{ exact Hap. }
+      assert (Hv1 : In v' l1).
+      { destruct Hv' as [->|H]; [exact Ho1|]. apply filter_In in H. apply mem_In. apply H. }
+      assert (HvR : In v' (filter P done ++ t1 ++ o :: y :: t2)).
+      { destruct Hv' as [->|H]; rewrite !in_app_iff; cbn [In]; tauto. }
+      destruct (rev_phase1 l1 (t1 ++ o :: t2) (done ++ [y]) ((r1' ++ [o]) ++ r2)
+                  (filter P done ++ t1 ++ o :: y :: t2) v') as [Ha Hp].
+      { exact Hn. }
+      { exact Hc0. }
+      { apply NoDup_move_back. exact HdR. }
+      { intros z Hz. rewrite !in_app_iff in *. cbn [In] in *. tauto. }
+      { exact HvR. }
+      { exact Hv1. }
+      rewrite Ha. exists (Some v'). do 2 f_equal.
+      (* the filter keeps exactly the instances of the first list *)
+      rewrite (filter_ext_in _ P).
+      2:{ intros z Hz. unfold P. rewrite !in_app_iff in Hz. cbn [In] in Hz.
+          destruct Hz as [Hz|[Hz|[Hz|[Hz|Hz]]]].
+          - apply filter_In in Hz. destruct Hz as [_ Hz]. unfold P in Hz. rewrite Hz. reflexivity.
+          - assert (Hm : mem z (t1 ++ o :: t2) = true) by (apply mem_In; rewrite in_app_iff; tauto).
+            rewrite Hm. apply orb_false_r.
+          - subst z. assert (Hm : mem o (t1 ++ o :: t2) = true) by (apply mem_In; rewrite in_app_iff; cbn [In]; tauto).
+            rewrite Hm. apply orb_false_r.
+          - subst z. rewrite Em. reflexivity.
+          - assert (Hm : mem z (t1 ++ o :: t2) = true) by (apply mem_In; rewrite in_app_iff; cbn [In]; tauto).
+            rewrite Hm. apply orb_false_r. }
+      rewrite !filter_app. cbn [filter]. fold (P o). fold (P y).
+      assert (Po : P o = true) by (apply mem_In; exact Ho1).
+      assert (Py : P y = true) by exact Em.
+      rewrite Po, Py.
+      rewrite (filter_id P (filter P done)) by (intros z Hz; apply filter_In in Hz; apply Hz).
+      (* split the projection of todo at o *)
+      fold P in Hp. rewrite filter_app in Hp. cbn [filter] in Hp. rewrite Po in Hp.
+      rewrite <- (app_assoc r1' [o] r2) in Hp. cbn [app] in Hp.
+      destruct (app_split_unique o _ _ _ _ Hp) as [E1 E2].
+      { intro H. apply filter_In in H. tauto. }
+      { intro H. apply NoDup_app_iff in Hrest. destruct Hrest as [Hr _].
+        apply NoDup_app_iff in Hr. destruct Hr as [_ [_ Hr]]. apply (Hr o H). left. reflexivity. }
+      rewrite E1, E2. rewrite <- Hl, <- !app_assoc. reflexivity.
+Qed.
+
+(* the operations of pass 1 come first and are all deletes; pass 2 produces none *)
+Lemma no_delete_pass1_nil l1 l2 ts inst :
+  diff_pass1 l1 l2 l1 O = (ts, inst) ->
+  count_op OpDelete (map t_op (ts ++ diff_pass2 l1 l2 inst O)) = O -> ts = [].
+Proof.
+  intros E Hc. pose proof (pass1_all_delete l2 l1 l1 O) as Hall. rewrite E in Hall. cbn [fst] in Hall.
+  destruct ts as [|t ts]; [reflexivity|]. exfalso.
+  apply Forall_inv in Hall. destruct Hall as [Hop _].
+  cbn [app map] in Hc. rewrite count_op_cons in Hc. unfold is_op at 1 in Hc. rewrite Hop in Hc. discriminate Hc.
+Qed.
+
+(* C13, the provable fragment: no delete and at most one move (any number of creates) *)
+Lemma reverse_apply_userord_partial l1 l2 :
+  NoDup l1 -> NoDup l2 ->
+  count_op OpDelete (userord_diff l1 l2) = O ->
+  (count_op OpReplace (userord_diff l1 l2) <= 1)%nat ->
+  reverse_apply (userord_diff l1 l2) l2 = Ok l1.
+Proof.
+  intros H1 H2 Hd Hm. rewrite reverse_apply_rev_app_st.
+  unfold userord_diff, userord_trace in *.
+  destruct (diff_pass1 l1 l2 l1 O) as [ts inst] eqn:E.
+  pose proof (no_delete_pass1_nil l1 l2 ts inst E Hd) as ->.
+  destruct (pass1_nil l2 l1 l1 O) as [E' Hsub]; [rewrite E; reflexivity|].
+  rewrite E in E'. injection E' as ->. cbn [app] in *.
+  assert (Hinv : inv2 l1 [] l2 l1).
+  { apply inv2_init; [exact H2|exact H1|]. intro z. split; [intro H; split; [exact H|apply Hsub; exact H]|tauto]. }
+  destruct (rev_phase0 l1 l2 [] l1 Hinv Hm eq_refl) as [f' Hr].
+  cbn [app length filter] in Hr. rewrite Hr. reflexivity.
+Qed.
+
+(* the complement: a diff with a delete can never be reversed - the reversed delete is a create
+   without yang:value, and it comes first *)
+Lemma reverse_apply_userord_delete_fails l1 l2 :
+  (count_op OpDelete (userord_diff l1 l2) > 0)%nat ->
+  exists e, reverse_apply (userord_diff l1 l2) l2 = Err e.
+Proof.
+  intro Hc. unfold userord_diff, userord_trace in *.
+  pose proof (pass1_all_delete l2 l1 l1 O) as Hall.
+  destruct (diff_pass1 l1 l2 l1 O) as [ts inst]. cbn [fst] in Hall.
+  destruct ts as [|t ts].
+  - cbn [app] in Hc. rewrite pass2_no_delete in Hc. lia.
+  - apply Forall_inv in Hall. destruct Hall as [Hop Hv].
+    cbn [app map]. unfold reverse_apply. cbn [reverse_ops]. unfold reverse_op. rewrite Hop. cbn [bind].
+    destruct (reverse_ops (map t_op (ts ++ diff_pass2 l1 l2 inst O))) as [r|e]; cbn [bind]; [|exists e; reflexivity].
+    unfold apply_ops, apply_ops_full. cbn [apply_ops_st]. unfold apply_one at 1. cbn [d_op d_value].
+    rewrite Hv. cbn [bind]. exists 1. reflexivity.
+Qed.
+
+(* ------------------------------------------------------------------------------------------- *)
+(* C13: what the faithful model refutes                                                          *)
+(* ------------------------------------------------------------------------------------------- *)
+
+Lemma NoDup_1234 : NoDup [1; 2; 3; 4].
+Proof. repeat (constructor; [cbn [In]; intuition discriminate|]). constructor. Qed.
+Lemma NoDup_4321 : NoDup [4; 3; 2; 1].
+Proof. repeat (constructor; [cbn [In]; intuition discriminate|]). constructor. Qed.
+Lemma NoDup_123 : NoDup [1; 2; 3].
+Proof. repeat (constructor; [cbn [In]; intuition discriminate|]). constructor. Qed.
+Lemma NoDup_312 : NoDup [3; 1; 2].
+Proof. repeat (constructor; [cbn [In]; intuition discriminate|]). constructor. Qed.
+Lemma NoDup_3 : NoDup [3].
+Proof. repeat (constructor; [cbn [In]; intuition discriminate|]). constructor. Qed.
+
+(* three moves: the anchors are swapped per node but the moves are replayed in forward order *)
+Lemma reverse_wrong_order :
+  reverse_apply (userord_diff [1; 2; 3; 4] [4; 3; 2; 1]) [4; 3; 2; 1] = Ok [4; 3; 1; 2].
+Proof. vm_compute. reflexivity. Qed.
+
+(* a delete: the reversed node is a create without yang:value *)
+Lemma reverse_missing_anchor : reverse_apply (userord_diff [1; 2; 3] [3]) [3] = Err 1.
+Proof. vm_compute. reflexivity. Qed.
+
+(* a single move of the instance that becomes first: content and order are restored, but the
+   returned *data points at 2, not at the first sibling *)
+Lemma reverse_stale_pointer :
+  reverse_apply_full (userord_diff [1; 2; 3] [3; 1; 2]) [3; 1; 2] = Ok ([1; 2; 3], Some 2).
+Proof. vm_compute. reflexivity. Qed.
+
+Lemma reverse_apply_userord_refuted :
+  exists l1 l2, NoDup l1 /\ NoDup l2 /\ reverse_apply (userord_diff l1 l2) l2 <> Ok l1.
+Proof.
+  exists [1; 2; 3; 4], [4; 3; 2; 1]. split; [exact NoDup_1234|]. split; [exact NoDup_4321|].
+  rewrite reverse_wrong_order. discriminate.
+Qed.
+
+Lemma reverse_apply_userord_refuted_error :
+  exists l1 l2, NoDup l1 /\ NoDup l2 /\ is_ok (reverse_apply (userord_diff l1 l2) l2) = false.
+Proof.
+  exists [1; 2; 3], [3]. split; [exact NoDup_123|]. split; [exact NoDup_3|].
+  rewrite reverse_missing_anchor. reflexivity.
+Qed.
+
+Lemma reverse_first_sibling_refuted :
+  exists l1 l2 l f, NoDup l1 /\ NoDup l2 /\
+    count_op OpDelete (userord_diff l1 l2) = O /\ count_op OpReplace (userord_diff l1 l2) = 1%nat /\
+    reverse_apply_full (userord_diff l1 l2) l2 = Ok (l, f) /\ f <> hd_error l.
+Proof.
+  exists [1; 2; 3], [3; 1; 2], [1; 2; 3], (Some 2).
+  split; [exact NoDup_123|]. split; [exact NoDup_312|]. split; [vm_compute; reflexivity|].
+  split; [vm_compute; reflexivity|]. split; [exact reverse_stale_pointer|]. discriminate.
+Qed.
